@@ -30,6 +30,7 @@ def modes : List Mode := []
   ++ [Drv.CratesV1Oracle.mode]
   ++ [Drv.CratesV1Explore.mode]
   ++ [Drv.T2.mode]
+  ++ Drv.C15.modes
 
 def dispatch (line : String) : String :=
   match tokens line with
